@@ -83,7 +83,11 @@ def _assignment(kind, npar, log, key):
 
     def logged(x):
         log.setdefault(key, []).append(np.array(x, copy=True))
-        return pure(x)
+        r = pure(x)
+        # the value the library was actually given back (the same function on another memory layout of the same numbers may round
+        # differently: the oracle must not recompute it)
+        log.setdefault(("assign-out",) + tuple(key[1:]), []).append(np.array(r, dtype=float, copy=True))
+        return r
     return logged, pure
 
 
@@ -196,7 +200,8 @@ def judge(family, case, rec):
             continue
         if parents[i]:
             Xpa = Xs[:, parents[i]]
-            f = np.asarray(pures[i](Xpa), dtype=float)
+            f = last(("assign-out", i))
+            f = np.asarray(pures[i](Xpa), dtype=float) if f is None else np.asarray(f, dtype=float)
             f = f.reshape(-1) if f.ndim else f
             got_in = last(("assign", i))
             if got_in is None:
@@ -215,6 +220,7 @@ def judge(family, case, rec):
                 rec.violation("C02:shift-draw-missing", family, case, "no original-noise or shift draw for variable %d" % i, **ctx)
                 continue
             e = o + s
+            mag = np.abs(o) + np.abs(s)
             key = "C02:shift-column-wrong"
         elif i in noise:
             rec.count("columns:noise-iv")
@@ -231,7 +237,9 @@ def judge(family, case, rec):
                 continue
             key = "C02:column-wrong"
         want = f + e
-        if want.shape != (n,) or not np.allclose(Xs[:, i], want, rtol=1e-12, atol=1e-12):
+        # the three terms may be added in any order: a few ulps of the largest term, nothing more
+        tol_ = 16 * np.finfo(float).eps * (np.abs(f) + (mag if i in shift else np.abs(e))) + 1e-300
+        if want.shape != (n,) or not (np.abs(Xs[:, i] - want) <= tol_).all():
             err = float(np.max(np.abs(Xs[:, i] - want))) if n and want.shape == (n,) else float("nan")
             rec.violation(key, family, case, "column %d != assignment(final parents) + noise (max abs error %.3g)" % (i, err), **ctx)
     if (A != A0).any():
